@@ -129,10 +129,11 @@ R, D = "release", "dev"
 def cfgs(names, profiles=(R,), alloc=True):
     return [(n, p, alloc) for n in names for p in profiles]
 
-def rnd(tier, configs, nvecs=2, profiles=None):
-    """direction B: long random histories on large vectors (seeded by VERIF_SEED)"""
+def rnd(tier, configs, nvecs=2, profiles=None, faultpct=0):
+    """direction B: long random histories on large vectors (seeded by VERIF_SEED); faultpct > 0: that share of the steps runs with
+    the k-th invocation of user code panicking (judged by JudgeFault, the history goes on from the adopted state)"""
     q = tier == "quick"
-    return dict(random=dict(traces=4 if q else 24, steps=2500 if q else 12000, maxlen=120 if q else 400, nvecs=nvecs),
+    return dict(random=dict(traces=4 if q else 24, steps=2500 if q else 12000, maxlen=120 if q else 400, nvecs=nvecs, faultpct=faultpct),
                 configs=cfgs(configs, profiles or ((R,) if q else (R, D))))
 
 def c01(tier):
@@ -180,8 +181,9 @@ def c06(tier):
     if tier == "quick":
         return [dict(model="elem", faults=True, configs=cfgs(["heap8d"], (R,))), dict(model="range", faults=True, configs=cfgs(["heap8d"], (R,))),
                 dict(model="clone", faults=True, configs=cfgs(["heap8c"], (R,))), dict(model="lazyf", faults=True, configs=cfgs(["heap8c"], (R,))),
-                dict(model="liar", faults=True, configs=cfgs(["heap8d", "fence8d"], (R,)))]
-    return [dict(model="elem", faults=True, configs=cfgs(["heap8d", "heap160", "fence8d"], (R, D))), dict(model="range", faults=True, configs=cfgs(["heap8d", "heap160", "fence8d"], (R, D))),
+                dict(model="liar", faults=True, configs=cfgs(["heap8d", "fence8d"], (R,))), rnd(tier, ["heap8c", "stack8c"], faultpct=30)]
+    return [rnd(tier, ["heap8c", "heap8d", "heap160", "stack8c", "fence24d", "heap0d"], nvecs=3, faultpct=30),
+            dict(model="elem", faults=True, configs=cfgs(["heap8d", "heap160", "fence8d"], (R, D))), dict(model="range", faults=True, configs=cfgs(["heap8d", "heap160", "fence8d"], (R, D))),
             dict(model="clone", faults=True, configs=cfgs(["heap8c", "fence24d", "heap160"], (R, D))), dict(model="lazy", faults=True, configs=cfgs(["heap8c", "heap160"], (R, D))),
             dict(model="clonefixed", faults=True, configs=cfgs(["stackn3", "stack8c"], (R,))), dict(model="fixed", faults=True, configs=cfgs(["stack8x3p"], (R,))),
             dict(model="liar", faults=True, configs=cfgs(["heap8d", "fence8d", "heap160", "stack24x3"], (R, D)))]
